@@ -149,6 +149,9 @@ def handle (op : String) : Option Handler :=
         pure (Json.mkObj [
           ("after_parse", Json.arr (m.afterParse.map (fun n => Json.arr #[jstr n.name, Json.str (kindStr n.kind)])).toArray),
           ("nodes", Json.arr (m.final.map jnode).toArray),
+          ("quark_order", jstrs (((symbolsOrder m.paired m.floated).filter (fun q => q.kind == .quark)).map
+              (fun q => q.symbol.getD []))),
+          ("floated", jstrs (m.floated.map (fun q => q.symbol.getD []))),
           ("privates", jstrs m.privates)])
   | _ => none
 
